@@ -874,7 +874,7 @@ fn main() {
 
 /// cumulative projection of an event list onto what ServerStopTrace.tla's predicates read
 fn project_e2e(run: usize, sc: &Value, events: &[Value]) -> Vec<Value> {
-    let timeout_ms = sc["shutdown_s"].as_u64().unwrap_or(1) * 1000;
+    let timeout_ms = sc["shutdown_s"].as_u64().unwrap_or(1).min(2_000_000) * 1000; // (TLC integers are 32 bit)
     let held_forever = sc["release"]
         .as_array()
         .map(|a| a.iter().any(|r| r["at"] == "never"))
